@@ -4,6 +4,9 @@ var clientStubs = map[string]string{
 	"(*golang.org/x/sync/singleflight.Group).Do":     "verifStubSFDo",
 	"(*golang.org/x/sync/singleflight.Group).DoChan": "verifStubSFDoChan",
 	"(*golang.org/x/sync/singleflight.Group).Forget": "verifStubSFForget",
+	"golang.org/x/sync/errgroup.WithContext":         "verifStubEGWithContext",
+	"(*golang.org/x/sync/errgroup.Group).Go":         "verifStubEGGo",
+	"(*golang.org/x/sync/errgroup.Group).Wait":       "verifStubEGWait",
 	"context.WithTimeout":                            "verifStubWithTimeout",
 	"context.WithCancel":                             "verifStubWithCancel",
 	"context.Background":                             "verifBackground",
@@ -73,8 +76,11 @@ func ch(name string, params, thorough map[string]int, reach []string, desc strin
 	return &HarnessSpec{ReplayRepeat: 40, Name: name, Pkg: "client/setec", Stubs: clientAll(), Params: params, ThoroughParams: thorough, ExpectReach: reach, Desc: desc,
 		ModelOnlyLabels: map[string]string{"undecodable-cache-ignored-as-a-whole": jsonPartialNote, "undecodable-cache-contributes-no-names": jsonPartialNote,
 			"no-request-under-lock": lockNote, "lock-released": lockNote, "lockset": lockNote, "rebuild-is-atomic-under-updater-lock": lockNote,
-			"flight-in-progress-never-forgotten": sfNote, "concurrent-registration-not-lost": sfNote}}
+			"flight-in-progress-never-forgotten": sfNote, "concurrent-registration-not-lost": sfNote,
+			"every-failed-field-is-reported": egNote, "only-fields-whose-own-lookup-failed-stay-unfilled": egNote}}
 }
+
+const egNote = "the order in which the tasks of an errgroup run is fixed by the model (order of the Go calls); the native run schedules them freely"
 
 const sfNote = "the second caller (another goroutine's flight or registration at a chosen point of the schedule) exists only in the singleflight model; the native run has one goroutine"
 
